@@ -56,6 +56,102 @@ def judge_c13(case):
     return _done(case, res, reach, refs, findings)
 
 
+def _probe_c12(res, reach):
+    set_since = {}
+    for rec in res["log"]:
+        op = rec["op"]
+        if op in ("param_set", "vparam_set", "pel_set"):
+            for k in list(set_since):
+                set_since[k] = True
+            set_since.setdefault("solve", True)
+        elif op == "call":
+            reach.probe("call-after-set" if set_since.get("solve") else "call-before-any-set")
+        elif op == "solve":
+            if set_since.get("solve"):
+                reach.probe("solve-after-set")
+            a = rec.get("abs")
+            if a and a[2]:
+                reach.probe("solve-with-hess_fn-cached")
+
+
+def judge_c12(case):
+    res, reach, refs = _base(case)
+    _probe_c12(res, reach)
+    findings = judge_history("C12", case, res, reach, refs, r2=True)
+    return _done(case, res, reach, refs, findings)
+
+
+def _probe_c14(case, res, reach):
+    names = {}
+    for op in case["ops"]:
+        if op[0] == "new_model":
+            sp = op[2]
+            for d in sp.get("params", []):
+                key = ("param", d["name"])
+                val = d.get("value", d.get("values"))
+                if key in names and names[key] != val:
+                    reach.probe("same-named-parameter-different-value")
+                names.setdefault(key, val)
+            for d in sp["vars"]:
+                key = ("var", d["name"])
+                val = (d.get("lb"), d.get("ub"), d.get("n"), d.get("domain"))
+                if key in names and names[key] != val:
+                    reach.probe("same-named-variable-different-decl")
+                names.setdefault(key, val)
+        elif op[0] == "drop_model":
+            reach.probe("model-dropped-and-collected")
+        elif op[0] == "flood":
+            reach.probe("flood")
+
+
+def judge_c14(case):
+    res, reach, refs = _base(case)
+    _probe_c14(case, res, reach)
+    findings = judge_history("C14", case, res, reach, refs)
+    return _done(case, res, reach, refs, findings)
+
+
+def _judge_inline(prop, fn, case):
+    res = execute(case["ops"], case["knobs"])
+    reach = Reach()
+    _walk_common(res, reach)
+    refs = RefCache(case["knobs"])
+    findings = []
+    for rec in res["log"]:
+        if rec["op"] != "solve":
+            continue
+        obs = rec.get("obs") or {}
+        if "status" not in obs:
+            continue
+        reach.judged += 1
+        peer = [f for f in rec.get("fired", []) if "peer" in f]
+        pk = tuple((f["peer"], f.get("cls"), f.get("xkind"), f.get("k")) for f in peer)
+        ent = tuple(e.get("method") for e in rec.get("events", []))
+        reach.nontrivial.add((ent, pk, obs["status"], bool(obs.get("values"))))
+        reach.probe(f"status:{obs['status']}")
+        f = fn(rec)
+        if f:
+            witness = "real"
+            if any(p["peer"] == "scripted" for p in peer):
+                witness = "scripted"
+            elif any(p["peer"] == "truncate" for p in peer):
+                witness = "truncated"
+            findings.append(_finding(prop, f["oracle"], rec, f["detail"] + f" [witness={witness}; entered={list(ent)}]", {"witness": witness}))
+    return _done(case, res, reach, refs, findings)
+
+
+def judge_c06(case):
+    return _judge_inline("C06", O.c06_inline, case)
+
+
+def judge_c07(case):
+    return _judge_inline("C07", O.c07_inline, case)
+
+
 JUDGES = {
+    "C06": judge_c06,
+    "C07": judge_c07,
+    "C14": judge_c14,
+    "C12": judge_c12,
     "C13": judge_c13,
 }
